@@ -1,3 +1,150 @@
-import Refinery.Model.SamplerRegistry
+import Refinery.Lemmas.SamplerRegistryRun
+import Refinery.Lemmas.SamplerRegistryPeers
+/-!
+# C13 — throughput goals scale with the current cluster size
+
+Statement (properties.jsonl): for throughput-based samplers with UseClusterSize, the per-node goal
+in force is max(1, floor(configured goal / current number of peers)) after any sequence of
+membership changes, sampler creations and configuration reloads; throughput samplers without
+UseClusterSize always use their configured goal.
+
+Vocabulary as in `Props/C12.lean`.  "Current number of peers" is `lastGood a0 ops`: the size of the
+most recent non-empty, successfully queried membership (failed and empty answers are ignored, as
+`updatePeerCounts` does), 1 before any.  The goal of instance `id` is `st.insts[id].goal`.  A goal of
+0 in the configuration means the dynsampler library default (`creationGoal`).
+
+Result: the UseClusterSize half is proved at registry level for all histories and per definition
+whenever keys determine type and goal; the other half is **refuted** for the code as it is (a
+definition without UseClusterSize that has the same key as one with it is scaled too — C12's leak;
+reproduced on the real code, corpus/C13) and proved under the no-collision hypothesis.
+-/
 namespace Refinery.Props.C13
+open Refinery Refinery.Model.SamplerRegistry Refinery.Lemmas.SamplerRegistry
+
+/-- **peerCount_spec** — after any history the peer count the factory divides by is the current
+number of peers in the property's sense, and it is never 0. -/
+theorem peerCount_spec (c0 : Config) (a0 : Option Nat) (cfgs : List Config) (ops : List Op) :
+    (run c0 a0 cfgs ops).peerCount = lastGood a0 ops ∧ 1 ≤ (run c0 a0 cfgs ops).peerCount := by
+  constructor
+  · rw [lastGood_eq]
+    exact foldl_pc cfgs ops (init c0 a0) (by simp only [Sync, init]; exact refresh_idem _ _)
+  · exact (inv_run c0 a0 cfgs (fun _ => True) ops (fun _ _ _ => trivial)).r.pcPos
+
+/-- **goal_invariant (registry level)** — after any history of peer changes (including failing and
+empty queries), creations on any worker, config swaps and reloads: every registered throughput
+dynsampler whose key has a remembered configured goal `c` (some UseClusterSize definition with that
+key was created since the last reload) has goal `max(c / peers, 1)`, and every other one still has
+the goal it was created with. -/
+theorem goal_invariant_registry (c0 : Config) (a0 : Option Nat) (cfgs : List Config) (ops : List Op) :
+    ∀ k id i, (k, id) ∈ (run c0 a0 cfgs ops).reg → (run c0 a0 cfgs ops).insts[id]? = some i →
+      i.kind.isThroughput = true →
+      match AList.get (run c0 a0 cfgs ops).goalCfg k with
+      | some c => i.goal = max (Int.tdiv c (lastGood a0 ops)) 1
+      | none => i.goal = creationGoal i.creator.rate := by
+  intro k id i hm hi ht
+  have inv := inv_run c0 a0 cfgs (fun _ => True) ops (fun _ _ _ => trivial)
+  have hpc := (peerCount_spec c0 a0 cfgs ops).1
+  cases hg : AList.get (run c0 a0 cfgs ops).goalCfg k with
+  | some c =>
+    have := inv.r.goalTracked k id i c hm hi ht hg
+    simp only [newGoal, hpc] at this
+    exact this
+  | none => exact inv.r.goalUntracked k id i hm hi ht hg
+
+/-- **goal_invariant** — whenever registry keys determine sampler type and goal (`Faithful`; implied
+by sampler keys without ':'), after any history: the instance behind every throughput sampler slot
+with UseClusterSize built since the last reload has goal `max(configured goal / current peers, 1)`. -/
+theorem goal_invariant (c0 : Config) (a0 : Option Nat) (cfgs : List Config) (ops : List Op)
+    (E : Str → Prop) (ho : OpsIn E ops) (hF : Faithful (InPlay (c0 :: cfgs) E)) :
+    ∀ key ent, (key, ent) ∈ (run c0 a0 cfgs ops).caches → ent.epoch = (run c0 a0 cfgs ops).epoch →
+      ∀ s ∈ ent.slots, s.d.kind.isThroughput = true → s.d.useCluster = true → ∀ id, s.id = some id →
+        ∃ i, (run c0 a0 cfgs ops).insts[id]? = some i ∧
+          i.goal = max (Int.tdiv s.d.rate (lastGood a0 ops)) 1 := by
+  intro key ent hm hep s hs ht hu id hid
+  have inv := inv_run c0 a0 cfgs E ops ho
+  have hpc := (peerCount_spec c0 a0 cfgs ops).1
+  have hcur := inv.f hF key ent hm hep s hs id hid
+  obtain ⟨hP, _, _, hi⟩ := (inv.c.slotWF key ent hm).2 s hs
+  obtain ⟨i, hget, _, _, hok⟩ := hi id hid
+  have hik : i.kind = s.d.kind := assertOk_throughput hok ht
+  have htr := inv.c.tracked key ent hm hep s hs (by rw [hid]; simp) ht hu
+  cases hg : AList.get (run c0 a0 cfgs ops).goalCfg (makeKey s.pfx s.d) with
+  | none => rw [hg] at htr; cases htr
+  | some c =>
+    obtain ⟨pd, hPd, hkd, _, _, hrate⟩ := inv.r.goalProv _ c hg
+    have hr : pd.2.rate = s.d.rate := (hF pd (s.pfx, s.d) hPd hP hkd).2
+    have := inv.r.goalTracked _ id i c (AList.mem_of_get hcur) hget (by rw [hik]; exact ht) hg
+    refine ⟨i, hget, ?_⟩
+    rw [this, ← hrate, hr]
+    simp only [newGoal, hpc]
+
+/-- `goal_invariant` for sampler keys (environment / dataset names) that contain no ':' -/
+theorem goal_invariant_colonFree (c0 : Config) (a0 : Option Nat) (cfgs : List Config) (ops : List Op)
+    (ho : OpsIn (fun e => ':' ∉ e) ops) :
+    ∀ key ent, (key, ent) ∈ (run c0 a0 cfgs ops).caches → ent.epoch = (run c0 a0 cfgs ops).epoch →
+      ∀ s ∈ ent.slots, s.d.kind.isThroughput = true → s.d.useCluster = true → ∀ id, s.id = some id →
+        ∃ i, (run c0 a0 cfgs ops).insts[id]? = some i ∧
+          i.goal = max (Int.tdiv s.d.rate (lastGood a0 ops)) 1 :=
+  goal_invariant c0 a0 cfgs ops _ ho (faithful_of_colonFree _ _ (fun _ h => h))
+
+/-- The second half of C13 at full strength: the instance behind every throughput sampler slot
+without UseClusterSize built since the last reload has its configured goal. -/
+def NoClusterSizeFixed : Prop :=
+  ∀ (c0 : Config) (a0 : Option Nat) (cfgs : List Config) (ops : List Op),
+    ∀ key ent, (key, ent) ∈ (run c0 a0 cfgs ops).caches → ent.epoch = (run c0 a0 cfgs ops).epoch →
+      ∀ s ∈ ent.slots, s.d.kind.isThroughput = true → s.d.useCluster = false → ∀ id, s.id = some id →
+        ∀ i, (run c0 a0 cfgs ops).insts[id]? = some i → i.goal = creationGoal s.d.rate
+
+private def str (x : String) : Str := x.toList
+private def emt (uc : Bool) : Def := { kind := .emathroughput, rate := 100, fields := [str "a"], useCluster := uc, tuning := 0 }
+/-- one rules-based environment with `EMAThroughput{100,[a],UseClusterSize}` and `EMAThroughput{100,[a]}` -/
+private def cfgLeak : Config := [(str "prod", .rules [emt true, emt false])]
+private def opsLeak : List Op := [.get 0 (str "prod"), .peers 4]
+
+/-- **full_statement_refuted** — with 4 peers the definition *without* UseClusterSize runs at goal
+25 instead of 100, because it shares its instance (and registry key) with one that has it. -/
+theorem no_cluster_size_fixed_refuted : ¬ NoClusterSizeFixed := by
+  intro h
+  have := h cfgLeak (some 1) [] opsLeak (0, str "prod")
+    ⟨[⟨rulesPrefix (str "prod"), emt true, some 0⟩, ⟨rulesPrefix (str "prod"), emt false, some 0⟩], 0⟩
+    (by decide) (by decide) ⟨rulesPrefix (str "prod"), emt false, some 0⟩ (by decide) (by decide) (by decide)
+    0 rfl ⟨.emathroughput, 25, rulesPrefix (str "prod"), emt true, 0⟩ (by decide)
+  revert this
+  decide
+
+/-- **no_cluster_size_fixed (partial)** — whenever keys determine type and goal, a throughput
+sampler slot without UseClusterSize whose registry key is not also the key of a UseClusterSize
+definition in play keeps its configured goal after any history. -/
+theorem no_cluster_size_fixed (c0 : Config) (a0 : Option Nat) (cfgs : List Config) (ops : List Op)
+    (E : Str → Prop) (ho : OpsIn E ops) (hF : Faithful (InPlay (c0 :: cfgs) E)) :
+    ∀ key ent, (key, ent) ∈ (run c0 a0 cfgs ops).caches → ent.epoch = (run c0 a0 cfgs ops).epoch →
+      ∀ s ∈ ent.slots, s.d.kind.isThroughput = true → s.d.useCluster = false →
+      (∀ pd, InPlay (c0 :: cfgs) E pd → makeKey pd.1 pd.2 = makeKey s.pfx s.d → pd.2.useCluster = false) →
+      ∀ id, s.id = some id →
+        ∃ i, (run c0 a0 cfgs ops).insts[id]? = some i ∧ i.goal = creationGoal s.d.rate := by
+  intro key ent hm hep s hs ht hu hno id hid
+  have inv := inv_run c0 a0 cfgs E ops ho
+  have hcur := inv.f hF key ent hm hep s hs id hid
+  obtain ⟨hP, _, _, hi⟩ := (inv.c.slotWF key ent hm).2 s hs
+  obtain ⟨i, hget, _, _, hok⟩ := hi id hid
+  have hik : i.kind = s.d.kind := assertOk_throughput hok ht
+  have hmem := AList.mem_of_get hcur
+  obtain ⟨i', hget', hk', _, hP'⟩ := inv.r.regWF _ id hmem
+  rw [hget] at hget'; cases hget'
+  have hrate : i.creator.rate = s.d.rate := (hF (i.pfx, i.creator) (s.pfx, s.d) hP' hP hk').2
+  cases hg : AList.get (run c0 a0 cfgs ops).goalCfg (makeKey s.pfx s.d) with
+  | some c =>
+    obtain ⟨pd, hPd, hkd, hucl, _, _⟩ := inv.r.goalProv _ c hg
+    rw [hno pd hPd hkd] at hucl; cases hucl
+  | none =>
+    refine ⟨i, hget, ?_⟩
+    rw [inv.r.goalUntracked _ id i hmem hget (by rw [hik]; exact ht) hg, hrate]
+
+/-! Non-vacuity: concrete histories evaluated by the kernel. -/
+example : ((run cfgLeak (some 3) [] [.get 0 (str "prod")]).insts.map (·.goal)) = [33] := by decide
+example : ((run cfgLeak (some 3) [] [.get 0 (str "prod"), .peers 0, .peersFail, .peers 1000]).insts.map (·.goal)) = [1] := by decide
+example : lastGood none [.peers 0, .peers 5, .peersFail, .get 0 (str "x"), .peers 0] = 5 := by decide
+example : ((run [(str "p", .leaf (emt false))] (some 7) [] [.get 0 (str "p"), .peers 9]).insts.map (·.goal)) = [100] := by decide
+example : newGoal (-3) 2 = 1 ∧ newGoal 7 2 = 3 ∧ newGoal 0 5 = 1 := by decide
+
 end Refinery.Props.C13
